@@ -108,6 +108,66 @@ structure World where
   invalid identifier surfaces here already) -/
   astDump : StageResult := .ok
 
+/-! ## the front end's verdict (`Parser.parse`), as far as the exit status depends on it
+
+Lexer and parser errors are *recorded* (error listeners), never raised; the visitor then runs on the recovered parse tree, which
+after a syntax error has holes, so it may fail with any Python exception. `Parser.parse` tolerates **every** such failure
+when a syntax error was recorded (the recorded errors are the diagnosis), lets an `ApplicationException` through, and
+re-raises a failure on a tree without syntax errors; the clauses around the body turn three exception classes into diagnostics. -/
+
+/-- how one step of `Parser.parse` (visiting the tree; the phases after it) ended -/
+inductive Step
+  | done
+  | app (code : Nat)          -- an `ApplicationException` (duplicate type, file not found raised by a nested parser, …)
+  | failed (cls : String)     -- any other exception class
+deriving DecidableEq, Repr
+
+structure FrontRun where
+  /-- exception class raised by reading / decoding the root file, if any -/
+  read : Option String := none
+  /-- return codes of the errors the lexer / parser listeners recorded before the visitor ran (all 150) -/
+  syntaxErrors : List Nat := []
+  /-- how visiting the (recovered) parse tree ended -/
+  visit : Step := .done
+  /-- return codes of the errors the visitor recorded before it ended (missing imports: 2; the errors of imported files) -/
+  visitErrors : List Nat := []
+  /-- return codes of the errors recorded by the phases after it (resolution: 170; rules: 150), in order -/
+  later : List Nat := []
+  /-- how the phases after the visitor ended (comments, resolution, marshalling, rules) -/
+  post : Step := .done
+deriving Repr
+
+def FrontRun.recorded (f : FrontRun) : List Nat := f.syntaxErrors ++ f.visitErrors
+
+/-- the `except` clauses around the body of `Parser.parse` for an exception that is not an `ApplicationException`;
+`recorded` = the errors recorded so far -/
+def outerHandler (recorded : List Nat) (cls : String) : StageResult :=
+  if cls == "FileNotFoundError" || cls == "IsADirectoryError" then .raised (.app 2)
+  else if cls == "UnicodeDecodeError" || cls == "RecursionError" then .raised (.appList (recorded ++ [150]))
+  else .raised (.other cls)
+
+def listOrOk (errors : List Nat) : StageResult :=
+  if errors.isEmpty then .ok else .raised (.appList errors)
+
+/-- the phases after the visitor, then `if self.errors: raise ParsingExceptionList(self.errors, …)` -/
+def afterVisit (f : FrontRun) : StageResult :=
+  match f.post with
+  | .done => listOrOk (f.recorded ++ f.later)
+  | .app c => .raised (.app c)
+  | .failed cls => outerHandler (f.recorded ++ f.later) cls
+
+/-- verdict of the front end -/
+def frontOf (f : FrontRun) : StageResult :=
+  match f.read with
+  | some cls => outerHandler [] cls
+  | none =>
+    match f.visit with
+    | .done => afterVisit f
+    | .app c => .raised (.app c)
+    | .failed cls =>
+      -- `except Exception: if not self.errors: raise` — any class is tolerated once an error is recorded
+      if f.recorded.isEmpty then outerHandler [] cls else afterVisit f
+
 /-- `generate.model_fields_set` of the validated tree -/
 def genSetOf (t : Kids) : GenSet :=
   match lookup "generate" t with
